@@ -722,6 +722,31 @@ def run(ctx):
         for (kind, desc, nm), vs in sorted(agg.items()):
             ctx.fail('C19.R5', '%s|%s %s' % (cname, kind, nm), site, 'a request the client can emit is not decodable by the server: %s [versions %s]' % (desc, ','.join(x[5:] for x in vs)))
     ctx.count('request_structures', n_req, 25)
+    # ---------------- R11 responses are decodable by the client: the same agreement for everything a response consists of
+    ctx.rule('C19.R11', 'every response structure a server can legally send (response message, header, batch item, all response payloads) is accepted by the reader the client decodes it with, under every version: element sequence and presence agree (C01.R1/R2 restricted to responses) - otherwise the client raises a decoding error for a successful operation, or loses the status, reason and message of a failed one')
+    n_resp = 0
+    for ref, rf, wf in sch.codec_classes():
+        cname = ref[1]
+        if not (cname.endswith('ResponsePayload') or cname in ('ResponseMessage', 'ResponseHeader', 'ResponseBatchItem')):
+            continue
+        n_resp += 1
+        R, W = sch.extract(ref, rf, 'read'), sch.extract(ref, wf, 'write')
+        agg = {}
+        for v in VERSIONS:
+            if R.defined_under(v) != W.defined_under(v):
+                agg.setdefault(('version-support', 'reader and writer are defined for different versions', 'class'), []).append(v)
+                continue
+            if not R.defined_under(v):
+                continue
+            for kind, desc, nm in compare_schemas(R, W, v):
+                if kind in ('written-not-read', 'presence', 'repetition', 'order'):
+                    agg.setdefault((kind, desc, nm), []).append(v)
+        site = '%s:%s %s' % (ref[0], rf.lineno, cname)
+        if not agg:
+            ctx.ok('C19.R11', site, 'everything %s.write emits is accepted by %s.read under all versions' % (cname, cname))
+        for (kind, desc, nm), vs in sorted(agg.items()):
+            ctx.fail('C19.R11', '%s|%s %s' % (cname, kind, nm), site, 'a response a server can send is not decodable by the client: %s [versions %s]' % (desc, ','.join(x[5:] for x in vs)))
+    ctx.count('response_structures', n_resp, 25)
     # ---------------- R8 explicitly tagged values the clients build carry the tag the request reader expects for that field
     ctx.rule('C19.R8', 'where a client builds a tagged value for a request field (primitives.X(value, enums.Tags.T), tag=enums.Tags.T, create_attribute_value_by_enum(enums.Tags.T, ...)) and binds it to a local or keyword named like a request payload field, T is the tag under which the request readers decode that field: otherwise the server cannot decode the request')
     field_tags = {}
